@@ -16,6 +16,7 @@ struct stream {
         int phase; /* 0 idle, 1 after START, 2 after CORRUPT */
 };
 static struct stream S;
+static IMB_MGR *g_other; /* a second, cleanly initialised manager */
 
 static int
 st_cb(void *arg, const IMB_SELF_TEST_CALLBACK_DATA *d)
@@ -128,6 +129,27 @@ check_outcome(IMB_MGR *m, int cfg, const uint8_t *corrupt, int nbase, const char
                         viol(cfg, "errno-after-failure", det);
                         bad++;
                 }
+                /* the error belongs to this manager: a successful call on another manager (which resets the
+                 * process-wide error mirror) must not make it disappear */
+                if (g_other) {
+                        static IMB_JOB oj;
+                        memset(&oj, 0, sizeof oj);
+                        oj.cipher_mode = IMB_CIPHER_CBC;
+                        oj.hash_alg = IMB_AUTH_NULL;
+                        oj.cipher_direction = IMB_DIR_ENCRYPT;
+                        oj.key_len_in_bytes = 16;
+                        mcall("imb_set_session", (void *) imb_set_session, 2, (uint64_t) g_other, (uint64_t) &oj);
+                        int err2 = imb_get_errno(m);
+                        if (err == IMB_ERR_SELFTEST && err2 != IMB_ERR_SELFTEST) {
+                                snprintf(det, sizeof det,
+                                         "%s: errno of the failed manager reads %d after a successful call on a second "
+                                         "manager (manager field imb_errno=%d), expected IMB_ERR_SELFTEST",
+                                         ctx, err2, m->imb_errno);
+                                viol(cfg, "errno-lost-after-other-manager-call", det);
+                                bad++;
+                        }
+                        cov_count("errno_persistence_checks", 1);
+                }
         } else {
                 if (!passbit) {
                         snprintf(det, sizeof det, "%s: pass bit clear without corruption", ctx);
@@ -163,6 +185,9 @@ eng_selftest(void)
                 g_cm->cur_variant = g_cfg_variant[cfg];
                 uint8_t corrupt[MAXE];
                 char det[300];
+                g_other = (IMB_MGR *) mcall("alloc_mb_mgr", (void *) alloc_mb_mgr, 1, g_cfgs[cfg].flags);
+                if (g_other)
+                        mm_init_arch(g_other, g_cfgs[cfg].arch);
                 /* (1) baseline */
                 run_init(m, g_cfgs[cfg].arch, NULL);
                 inits++;
@@ -201,6 +226,8 @@ eng_selftest(void)
                                 strcat(list, names[i]);
                         }
                         cov_sample("C20", "%s entries=%d: %s", g_cfgs[cfg].name, n, list);
+                        /* compared with the pinned entry list by the driver (vlib/plans.py _selftest_post) */
+                        ev_printf("{\"ev\":\"selftest_entries\",\"cfg\":\"%s\",\"names\":\"%s\"}", g_cfgs[cfg].name, list);
                 }
                 cov_hit("C20", "%s|clean", g_cfgs[cfg].name);
                 /* (2) each entry alone -- exhaustive */
@@ -248,6 +275,9 @@ eng_selftest(void)
                 if (!(m->features & IMB_FEATURE_SELF_TEST_PASS) || imb_get_errno(m))
                         viol(cfg, "no-callback-init", "init without callback does not report a passed self-test");
                 mcall("free_mb_mgr", (void *) free_mb_mgr, 1, (uint64_t) m);
+                if (g_other)
+                        mcall("free_mb_mgr", (void *) free_mb_mgr, 1, (uint64_t) g_other);
+                g_other = NULL;
                 cov_count("selftest_entries", (uint64_t) n);
         }
         cov_count("inits", inits);
